@@ -98,6 +98,133 @@ def _vint(j):
     return None
 
 
+_LIST_EXP = {}
+
+
+def _expand_list_read(e, cs):
+    """(axioms, further reads) of one len/get/ok application e, given the alternative forms cs of its container
+    (the container itself, its normal form, its aliases and their normal forms).  Memoised on (e, cs)."""
+    key = (e.get_id(),) + tuple(t.get_id() for t in cs)
+    hit = _LIST_EXP.get(key)
+    if hit is not None:
+        return hit[1], hit[2]
+    ax, work = [], []
+    L, G = bs.list_len, bs.list_get
+    nm = e.decl().name()
+    args = e.children()
+    c = args[0]
+    if nm == "list_len":
+        ax.append(e >= 0)
+    if nm in ("list_idx_ok", "list_set_ok"):
+        j = _vint(args[1])
+        if j is not None:
+            ax.append(z3.Implies(z3.And(j >= 0, j < L(c)), e))
+            ax.append(z3.Implies(j >= L(c), z3.Not(e)))
+            work.append(L(c))
+        _LIST_EXP[key] = ((e, cs), ax, work)
+        return ax, work
+    if nm == "list_del_ok":
+        k = args[1]
+        if z3.is_app(k) and k.decl().name() == "mk_slice":
+            ax.append(e)
+        _LIST_EXP[key] = ((e, cs), ax, work)
+        return ax, work
+    j = _vint(args[1]) if nm == "list_get" else None
+    rd = (lambda x: L(x)) if nm == "list_len" else (lambda x: G(x, args[1]))
+    for t in cs:
+        if not z3.is_app(t):
+            continue
+        tn = t.decl().name()
+        if not t.eq(c):
+            work.append(rd(t))
+            ax.append(z3.Implies(t == c, rd(t) == e))
+        if tn == "list_set":
+            c0, k, x = t.children()
+            ki = _vint(k)
+            if nm == "list_len":
+                ax.append(L(t) == L(c0))
+                work.append(L(c0))
+            elif j is not None and ki is not None:
+                ax.append(z3.Implies(z3.And(ki >= 0, ki < L(c0)), G(t, args[1]) == z3.If(ki == j, x, G(c0, args[1]))))
+                work.append(G(c0, args[1]))
+                work.append(L(c0))
+        elif tn == "list_append":
+            c0, x = t.children()
+            if nm == "list_len":
+                ax.append(L(t) == L(c0) + 1)
+                work.append(L(c0))
+            elif j is not None:
+                ax.append(z3.Implies(z3.And(j >= 0, j <= L(c0)), G(t, args[1]) == z3.If(j == L(c0), x, G(c0, args[1]))))
+                work.append(G(c0, args[1]))
+                work.append(L(c0))
+        elif tn == "list_extend":
+            a0, b0 = t.children()
+            if nm == "list_len":
+                ax.append(L(t) == L(a0) + L(b0))
+                work.append(L(a0))
+                work.append(L(b0))
+            elif j is not None:
+                jb = bs.VInt(j - L(a0))
+                ax.append(z3.Implies(j >= 0, G(t, args[1]) == z3.If(j < L(a0), G(a0, args[1]), G(b0, jb))))
+                work.append(G(a0, args[1]))
+                work.append(G(b0, jb))
+                work.append(L(a0))
+        elif tn == "list_del":
+            c0, k = t.children()
+            if z3.is_app(k) and k.decl().name() == "mk_slice":
+                lo, hi, stp = k.children()
+                li = _vint(lo)
+                if li is not None and hi.eq(smt.VNone) and stp.eq(smt.VNone):
+                    # del c[n:]
+                    if nm == "list_len":
+                        ax.append(z3.Implies(li >= 0, L(t) == z3.If(li <= L(c0), li, L(c0))))
+                        work.append(L(c0))
+                    elif j is not None:
+                        ax.append(z3.Implies(z3.And(j >= 0, j < li), G(t, args[1]) == G(c0, args[1])))
+                        work.append(G(c0, args[1]))
+        elif tn == "list_empty":
+            if nm == "list_len":
+                ax.append(L(t) == 0)
+        elif tn == "list_of":
+            x = t.children()[0]
+            ax.append(rd(t) == rd(x))
+            work.append(rd(x))
+        elif tn == "list_slice_from":
+            x, n = t.children()
+            ni = _vint(n)
+            if ni is not None:
+                if nm == "list_len":
+                    ax.append(z3.Implies(ni >= 0, L(t) == z3.If(ni <= L(x), L(x) - ni, 0)))
+                    work.append(L(x))
+                elif j is not None:
+                    jj = bs.VInt(ni + j)
+                    ax.append(z3.Implies(z3.And(j >= 0, ni >= 0), G(t, args[1]) == G(x, jj)))
+                    work.append(G(x, jj))
+        elif tn == "plain":
+            x = t.children()[0]
+            # plain() acts element-wise on sequences [N-VIEW]
+            from contracts.core import is_sequence
+            if nm == "list_len":
+                ax.append(L(t) == L(x))
+                work.append(L(x))
+            else:
+                ax.append(z3.Implies(is_sequence(x), G(t, args[1]) == bs.plain(G(x, args[1]))))
+                work.append(G(x, args[1]))
+        elif t.decl().kind() == z3.Z3_OP_ITE:
+            _, a1, b1 = t.children()
+            work.append(rd(a1))
+            work.append(rd(b1))
+        elif t.decl().kind() == z3.Z3_OP_SELECT:
+            arr, idx = t.children()
+            while z3.is_app(arr) and arr.decl().kind() == z3.Z3_OP_STORE:
+                a0, i0, v0 = arr.children()
+                ax.append(z3.Implies(idx == i0, rd(t) == rd(v0)))
+                work.append(rd(v0))
+                arr = a0
+    _LIST_EXP[key] = ((e, cs), ax, work)
+    return ax, work
+
+
 def global_list_axioms(formulas, alias):
     """len / get of the list operation symbols [SPEC-BUILTIN], instantiated at every occurring read and followed
     through writes, array stores and equations (as for dicts).  Indices are the non-negative ones the code uses."""
@@ -105,35 +232,16 @@ def global_list_axioms(formulas, alias):
     work = []
     for f in formulas:
         if z3.is_expr(f):
-            for e in _list_reads(f):
-                work.append(e)
+            work.extend(_list_reads(f))
     seen = set()
     steps = 0
-    L, G = bs.list_len, bs.list_get
     while work and steps < 3000:
-        steps += 1
         e = work.pop()
         if e.get_id() in seen:
             continue
         seen.add(e.get_id())
-        nm = e.decl().name()
-        args = e.children()
-        c = args[0]
-        if nm == "list_len":
-            ax.append(e >= 0)
-        if nm in ("list_idx_ok", "list_set_ok"):
-            j = _vint(args[1])
-            if j is not None:
-                ax.append(z3.Implies(z3.And(j >= 0, j < L(c)), e))
-                ax.append(z3.Implies(j >= L(c), z3.Not(e)))
-                work.append(L(c))
-            continue
-        if nm == "list_del_ok":
-            k = args[1]
-            if z3.is_app(k) and k.decl().name() == "mk_slice":
-                ax.append(e)
-            continue
-        j = _vint(args[1]) if nm == "list_get" else None
+        steps += 1
+        c = e.arg(0)
         cs = [c]
         cn = _norm_select(c)
         if not cn.eq(c):
@@ -145,97 +253,9 @@ def global_list_axioms(formulas, alias):
             if not an.eq(a):
                 ax.append(a == an)
                 cs.append(an)
-        for t in cs:
-            if not z3.is_app(t):
-                continue
-            tn = t.decl().name()
-            rd = (lambda x: L(x)) if nm == "list_len" else (lambda x: G(x, args[1]))
-            if not t.eq(c):
-                work.append(rd(t))
-                ax.append(z3.Implies(t == c, rd(t) == e))
-            if tn == "list_set":
-                c0, k, x = t.children()
-                ki = _vint(k)
-                if nm == "list_len":
-                    ax.append(L(t) == L(c0))
-                    work.append(L(c0))
-                elif j is not None and ki is not None:
-                    ax.append(z3.Implies(z3.And(ki >= 0, ki < L(c0)), G(t, args[1]) == z3.If(ki == j, x, G(c0, args[1]))))
-                    work.append(G(c0, args[1]))
-                    work.append(L(c0))
-            elif tn == "list_append":
-                c0, x = t.children()
-                if nm == "list_len":
-                    ax.append(L(t) == L(c0) + 1)
-                    work.append(L(c0))
-                elif j is not None:
-                    ax.append(z3.Implies(z3.And(j >= 0, j <= L(c0)), G(t, args[1]) == z3.If(j == L(c0), x, G(c0, args[1]))))
-                    work.append(G(c0, args[1]))
-                    work.append(L(c0))
-            elif tn == "list_extend":
-                a0, b0 = t.children()
-                if nm == "list_len":
-                    ax.append(L(t) == L(a0) + L(b0))
-                    work.append(L(a0))
-                    work.append(L(b0))
-                elif j is not None:
-                    jb = bs.VInt(j - L(a0))
-                    ax.append(z3.Implies(j >= 0, G(t, args[1]) == z3.If(j < L(a0), G(a0, args[1]), G(b0, jb))))
-                    work.append(G(a0, args[1]))
-                    work.append(G(b0, jb))
-                    work.append(L(a0))
-            elif tn == "list_del":
-                c0, k = t.children()
-                if z3.is_app(k) and k.decl().name() == "mk_slice":
-                    lo, hi, stp = k.children()
-                    li = _vint(lo)
-                    if li is not None and hi.eq(smt.VNone) and stp.eq(smt.VNone):
-                        # del c[n:]
-                        if nm == "list_len":
-                            ax.append(z3.Implies(li >= 0, L(t) == z3.If(li <= L(c0), li, L(c0))))
-                            work.append(L(c0))
-                        elif j is not None:
-                            ax.append(z3.Implies(z3.And(j >= 0, j < li), G(t, args[1]) == G(c0, args[1])))
-                            work.append(G(c0, args[1]))
-            elif tn == "list_empty":
-                if nm == "list_len":
-                    ax.append(L(t) == 0)
-            elif tn == "list_of":
-                x = t.children()[0]
-                ax.append(rd(t) == rd(x))
-                work.append(rd(x))
-            elif tn == "list_slice_from":
-                x, n = t.children()
-                ni = _vint(n)
-                if ni is not None:
-                    if nm == "list_len":
-                        ax.append(z3.Implies(ni >= 0, L(t) == z3.If(ni <= L(x), L(x) - ni, 0)))
-                        work.append(L(x))
-                    elif j is not None:
-                        jj = bs.VInt(ni + j)
-                        ax.append(z3.Implies(z3.And(j >= 0, ni >= 0), G(t, args[1]) == G(x, jj)))
-                        work.append(G(x, jj))
-            elif tn == "plain":
-                x = t.children()[0]
-                # plain() acts element-wise on sequences [N-VIEW]
-                from contracts.core import is_sequence
-                if nm == "list_len":
-                    ax.append(L(t) == L(x))
-                    work.append(L(x))
-                else:
-                    ax.append(z3.Implies(is_sequence(x), G(t, args[1]) == bs.plain(G(x, args[1]))))
-                    work.append(G(x, args[1]))
-            elif t.decl().kind() == z3.Z3_OP_ITE:
-                _, a1, b1 = t.children()
-                work.append(rd(a1))
-                work.append(rd(b1))
-            elif t.decl().kind() == z3.Z3_OP_SELECT:
-                arr, idx = t.children()
-                while z3.is_app(arr) and arr.decl().kind() == z3.Z3_OP_STORE:
-                    a0, i0, v0 = arr.children()
-                    ax.append(z3.Implies(idx == i0, rd(t) == rd(v0)))
-                    work.append(rd(v0))
-                    arr = a0
+        a2, w2 = _expand_list_read(e, cs)
+        ax.extend(a2)
+        work.extend(w2)
     return ax
 
 
